@@ -249,6 +249,52 @@ class Unit:
                         out.emit(ln, {'kind': 'generated', 'file': 'src/errors.rs', 'line': k + 1})
                 else:
                     raise Undecided('template error: unknown generator %s' % parts[1])
+            elif d == 'expand-macro':
+                # R13: `macro_rules! NAME { (ARGS) => { BODY }; }` invocations expanded textually with the macro's own body;
+                # after each expanded impl header the template line given after `:::` is woven in ($1 = type path, $mod, $Cls, $Name from it)
+                segs = [x.strip() for x in arg.split(':::')]
+                rel, mname = segs[0].split()[0], segs[0].split()[1]
+                spec_line = segs[1] if len(segs) > 1 else ''
+                its = self.items(rel)
+                mr = [x for x in its if x.kind == 'macro_rules' and x.name == mname]
+                if len(mr) != 1:
+                    raise Undecided('lost anchor: macro_rules %s' % mname)
+                src = mr[0].src
+                mbody = src[mr[0].body_open + 1:mr[0].end - 1]
+                mm = re.match(r'\s*\((.*?)\)\s*=>\s*\{', mbody, re.S)
+                if not mm:
+                    raise Undecided('unsupported macro shape: %s' % mname)
+                params = re.findall(r'\$(\w+)\s*:\s*\w+', mm.group(1))
+                bo_ = mbody.index('{', mm.end() - 1)
+                be_ = rx.match_close(mbody, bo_)
+                body_t = mbody[bo_ + 1:be_ - 1]
+                n_inv = 0
+                for inv in its:
+                    if inv.kind == 'macro' and inv.name == mname:
+                        args = rx.split_args(inv.src, inv.body_open + 1, rx.match_close(inv.src, inv.body_open) - 1)
+                        if len(args) != len(params):
+                            raise Undecided('macro invocation arity mismatch: %s' % mname)
+                        t = body_t
+                        for pn, av in zip(params, args):
+                            t = t.replace('$' + pn, rx.norm_ws(av))
+                        t = self.rewrite(t, out, mname)
+                        # weave the per-impl spec line after the impl header `{`
+                        tp = rx.norm_ws(args[0])
+                        segs_t = tp.split('::')
+                        sp = spec_line.replace('$1', tp).replace('$mod', segs_t[-2]).replace('$Cls', segs_t[-2].capitalize()).replace('$Name', segs_t[-1])
+                        hb = t.index('{')
+                        line0 = rx.line_of(inv.src, inv.sig_begin)
+                        start = len(out.lines) + 1
+                        out.emit_src(t[:hb + 1].strip(), rel, line0)
+                        if sp:
+                            out.emit(sp, {'kind': 'contract', 'fn': 'TryFromAmqpClass<%s>::try_from' % tp, 'tmpl_line': i + 1})
+                        # result naming (R5) for the method so the trait's ensures applies by name
+                        out.emit_src(t[hb + 1:].rstrip(), rel, line0)
+                        out.fns.append({'id': 'TryFromAmqpClass<%s>::try_from' % tp, 'start': start, 'end': len(out.lines), 'props': list(self.serves),
+                                        'contracted': False, 'default': False, 'file': rel, 'src_line': line0, 'diverges': False,
+                                        'imported': getattr(self, 'cur_imported', False), 'safety': None, 'sites': []})
+                        n_inv += 1
+                out.count('R13', n_inv)
             elif d == 'item':
                 rel, kind, name = parts[1], parts[2], parts[3]
                 self.emit_item(out, rel, kind, name, parts[4:])
